@@ -129,8 +129,19 @@ func (i *IchimokuCloud[T]) Compute(highs, lows, closings <-chan T) (<-chan T, <-
 	baseLineSplice[1] = helper.Skip(baseLineSplice[1], i.LeadingMax.IdlePeriod()-i.BaseMax.IdlePeriod())
 
 	//	Chikou Span (Lagging Span) = Closing plotted 26 days in the past.
-	laggingLine := helper.Shift(closings, i.LaggingPeriod, 0)
+	closingsSplice := helper.Duplicate(closings, 2)
+	laggingLine := helper.Shift(closingsSplice[0], i.LaggingPeriod, 0)
 	laggingLine = helper.Skip(laggingLine, i.LeadingMax.IdlePeriod())
+
+	// The shifted closings are LaggingPeriod values longer than the other
+	// lines. Cut the lagging line to their common length.
+	laggingLine = helper.Operate(
+		laggingLine,
+		helper.Skip(closingsSplice[1], i.LeadingMax.IdlePeriod()),
+		func(lagging, _ T) T {
+			return lagging
+		},
+	)
 
 	return conversionLineSplice[1], baseLineSplice[1], leadingSpanA, leadingSpanB, laggingLine
 }
